@@ -28,6 +28,9 @@ type Contract struct {
 	Modifies   []string // heap-map patterns the function may change ("*" = everything)
 	Flags      map[string]string
 	PanicsWhen []Clause // ensures-on-panic (unused: panics are obligations)
+	// ParamNames: the names the contract uses for the receiver and parameters, by position
+	// ("func key(recv, a, b)"). When the code renames a parameter the contract keeps binding by position.
+	ParamNames []string
 }
 
 type Clause struct {
@@ -258,7 +261,15 @@ func ParseContracts(files map[string]string) (*Contracts, error) {
 			switch kw {
 			case "func", "iface":
 				key := rest
+				var pnames []string
+				if lp := strings.Index(rest, "("); lp > 0 && strings.HasSuffix(rest, ")") {
+					key = strings.TrimSpace(rest[:lp])
+					for _, a := range strings.Split(rest[lp+1:len(rest)-1], ",") {
+						pnames = append(pnames, strings.TrimSpace(a))
+					}
+				}
 				cur = &Contract{Key: key, File: fname, Line: ln + 1, LoopInv: map[int][]Clause{}, LoopInvExcl: map[int][]Clause{}, LoopDec: map[int]Clause{}, Flags: map[string]string{}}
+				cur.ParamNames = pnames
 				if kw == "iface" {
 					cur.Flags["iface"] = ""
 				}
